@@ -300,17 +300,29 @@ func (e *sdEngine) scan(pkgs []*packages.Package, sink func(obj types.Object) bo
 								}
 							}
 							return false
+						case *ast.CallExpr:
+							// a signal constant passed as an argument selects the callee's behaviour
+							if len(ctx) > 0 {
+								for _, a := range v.Args {
+									obj := usedObj(info, a)
+									if s := sdSignalOfConst(obj); s != "" {
+										if _, isCall := a.(*ast.CallExpr); isCall {
+											continue
+										}
+										if sink == nil || sink(obj) {
+											out = append(out, sdUse{a.Pos(), fname, obj, []string{s}, ctx, sdAllowed([]string{s}, ctx), inCase})
+										}
+									}
+								}
+							}
+							return true
 						case *ast.Ident:
 							obj := info.Uses[v]
 							if obj == nil || len(ctx) == 0 {
 								return true
 							}
 							if sdSignalOfConst(obj) != "" {
-								// a signal constant used as a value (dispatch argument) inside a context
-								s := sdSignalOfConst(obj)
-								if sink == nil || sink(obj) {
-									out = append(out, sdUse{v.Pos(), fname, obj, []string{s}, ctx, sdAllowed([]string{s}, ctx), inCase})
-								}
+								// signal constants count only as dispatch arguments (see CallExpr)
 								return true
 							}
 							sigs := e.member(obj)
